@@ -23,7 +23,8 @@ REQUIRED = ["batch_entries_compared", "batches/cache_on", "batches/cache_off", "
             "batches/parallel_rules", "cache_coherence_evals", "lookalike_pairs_in_batches", "repeated_substrates_in_batches",
             "validate_smiles_compared", "validate_records_where_tautomer_flag_matters", "validate_records_where_aromaticity_flag_matters", "balance_compared", "cluster_batches_compared", "syncrn_compared",
             "batches/adversarial_id", "nonempty_entry_results", "batches/explicit_mode", "batches/dedupe_off", "batches/repeated_rule_objects",
-            "cluster_batches_with_attribute", "cluster_batches_with_partial_attribute"]
+            "cluster_batches_with_attribute", "cluster_batches_with_partial_attribute",
+            "cluster_batches_non_default_config", "cluster_batches_numeric_attribute"]
 ASSUMPTIONS = [
     "reference for one entry: SynReactor on smiles_to_graph(entry) for each rule graph in order, flattened, order-preserving de-duplication",
     "the cache-coherence monitor only sees calls made in this process (entry_n_jobs=1); worker processes are covered by the output differential",
@@ -280,6 +281,34 @@ def check_cluster_batches(ctx):
             ctx.count("cluster_batches_compared")
             if not c13.same_partition([e["class"] for e in got], [e["class"] for e in one]) or not c13.same_partition([e["class"] for e in got], want):
                 ctx.violation("cluster-depends-on-batch-size", {"batch_size": bs, "n": len(graphs)}, f"batch_size={bs} gives a different partition than one-shot clustering")
+        # non-default matcher configuration (element only / element+charge+hcount): the one-shot path has to use it too;
+        # numeric pre-grouping attribute (atom count)
+        for cfg_names, cfg_defaults in ((["element"], ["*"]), (["element", "charge", "hcount"], ["*", 0, 0])):
+            def mk():
+                return BatchCluster(node_label_names=list(cfg_names), node_label_default=list(cfg_defaults))
+            try:
+                one_c, _ = mk().fit([{"gml": g} for g in graphs], None, rule_key="gml", attribute_key=None, batch_size=None)
+                for bs in (1, 3):
+                    got_c, _ = mk().fit([{"gml": g} for g in graphs], None, rule_key="gml", attribute_key=None, batch_size=bs)
+                    ctx.count("cluster_batches_non_default_config")
+                    if not c13.same_partition([e["class"] for e in got_c], [e["class"] for e in one_c]):
+                        ctx.violation("cluster-depends-on-batch-size", {"batch_size": bs, "n": len(graphs), "node_label_names": cfg_names},
+                                      f"BatchCluster(node_label_names={cfg_names}): batch_size={bs} gives {len(set(e['class'] for e in got_c))} classes, "
+                                      f"one-shot clustering {len(set(e['class'] for e in one_c))}")
+                        break
+            except Exception as e:
+                ctx.violation("cluster-depends-on-batch-size", {"node_label_names": cfg_names}, f"configured BatchCluster raises {type(e).__name__}: {e}")
+        sizes = [g.number_of_nodes() for g in graphs]
+        try:
+            one_n, _ = BatchCluster().fit([{"gml": g, "n": k} for g, k in zip(graphs, sizes)], None, rule_key="gml", attribute_key="n", batch_size=None)
+            c1 = [e["class"] for e in one_n]
+        except Exception as e:
+            c1 = f"{type(e).__name__}: {e}"
+        got_n, _ = BatchCluster().fit([{"gml": g, "n": k} for g, k in zip(graphs, sizes)], None, rule_key="gml", attribute_key="n", batch_size=2)
+        ctx.count("cluster_batches_numeric_attribute")
+        if isinstance(c1, str) or not c13.same_partition([e["class"] for e in got_n], c1) or not c13.same_partition(c1, want):
+            ctx.violation("cluster-depends-on-batch-size", {"attribute": "atom count (int)", "n": len(graphs)},
+                          f"numeric pre-grouping attribute: one-shot clustering gives {c1 if isinstance(c1, str) else len(set(c1))}, batch_size=2 gives {len(set(e['class'] for e in got_n))} classes")
         # with a pre-grouping attribute: present on every entry (a real invariant), or missing on some entries
         # (then it is just data: batched and one-shot clustering still have to agree with each other)
         from synkit.Graph.Feature.graph_signature import GraphSignature
